@@ -552,7 +552,7 @@ def run_check(C, tier, seed, replay=None):
 
     # 6. report
     for fid, (kf, entry) in sorted(known_hits.items()):
-        log(f"KNOWN-FINDING: property={prop} {kf['summary']} (e.g. case `{entry['case']}`)")
+        log(f"KNOWN-FINDING: property={prop} {kf['summary']} (e.g. case `{entry['case'] if len(entry['case']) <= 400 else entry['case'][:400] + '...'}`)")
     rc_exit = 0
     if violations or proof_broken:
         rc_exit = 1
